@@ -403,7 +403,7 @@ func fluentCase(seed uint64, idx int) *CaseSpec {
 					continue
 				}
 				sentSoFar++
-				if !st.waitSent(sentSoFar, 3*time.Second) {
+				if !st.waitSent(sentSoFar, wd(3*time.Second)) {
 					t.Add("hang")
 					t.Add("end")
 					return t, nil
@@ -416,7 +416,7 @@ func fluentCase(seed uint64, idx int) *CaseSpec {
 				lo, hi := uint64(1+r.IntN(9)), uint64(r.IntN(3))
 				c.Modify().UpdateElectionID(nil, lo, hi)
 				sentSoFar++
-				if !st.waitSent(sentSoFar, 3*time.Second) {
+				if !st.waitSent(sentSoFar, wd(3*time.Second)) {
 					t.Add("hang")
 					t.Add("end")
 					return t, nil
